@@ -115,6 +115,15 @@ CLAIMS["C10"] = dict(
     note="the parameter pipeline is an abstract function of (absolute index, state) in the closed-loop theorems; hidden state of the real pipeline is what the mode E comparison looks for; xlsx 16-digit precision observed.",
     design="8.C10")
 
+CLAIMS["C07"] = dict(
+    technique="Lean 4 theorems about the initialization acceptance model (Atomica.Init; the least-squares solver is an arbitrary oracle) and characteristic expansion + correspondence with Population.initialize_compartments / Characteristic.vals (modes A, B)",
+    text="Proof: for EVERY candidate solution x, acceptance implies non-negative stocks and every databook row reproduced within 1e-6 (accept_sound, accept_ok_iff), every failing test implies one of the three dedicated refusals "
+         "(refuse_kinds, refuse_complete, no_assignment_refused); right-hand side scales with both calibration factors and the fraction's denominator; get_included_comps is the transitive closure with multiplicity (expand_correct, row_expSum); "
+         "reported characteristic = sum of members / denominator with 0/0 = 0 (charac_sum, value_*); kernel-checked witnesses of the three former defects. The harness wraps numpy.linalg.lstsq during Model construction, feeds A, b and the "
+         "returned x to the model, compares accept/refuse kind and stocks, and checks index-0 sums and characteristic consistency at every index of processed Results.",
+    note="LAPACK lstsq not modelled: 'an assignment exists => accepted' is only observed; float rounding at the acceptance thresholds counted as ambiguous.",
+    design="8.C07")
+
 NA_DEFAULT = "not yet claimed: model, theorems and correspondence under construction (see DESIGN.md section 8)"
 NA = {}
 
